@@ -14,6 +14,9 @@ ExportFinished == (Len(hist) = Depth + 1) => PrintT(<<"BEH", ToJson([cap |-> IF 
 SimNext ==
   \/ Finish
   \/ /\ Len(hist) < Depth
+     \* the dialects draw from the same seeded generator: extra draws per step give each its own walks
+     /\ (Dialect = "mysql" => RandomElement({1, 2}) > 0)
+     /\ (Dialect = "postgresql" => RandomElement({1, 2}) + RandomElement({3, 4}) > 0)
      /\ \E kind \in {RandomElement(1..20)} :
         CASE kind \in 1..5 -> \E c \in {RandomElement(Certs)} : Submit(c, "none")
           [] kind = 6 -> \E c \in {RandomElement(Certs)}, f \in {RandomElement(AddFaults)} : Submit(c, f) \/ Submit(c, "none")
